@@ -945,3 +945,132 @@ def ownership_threads(sysm, enc, trace, drivers):
       fns[name] = [v for k, v in ns_.items() if callable(v) and getattr(v, '__code__', None) is not None and v.__code__.co_filename == '<string>'][-1]
     return fns
   return make, logs, holder
+
+
+# ------------------------------------------------------------------------------------------------
+# C20 (concurrent part, liveness table): register / refresh / unregister of one address from several threads
+# ------------------------------------------------------------------------------------------------
+COURIER_UTILS = 'ml_metrics/_src/utils/courier_utils.py'
+REG_KEY = 'w0'
+REG_OPS = {'refresh': "REG.refresh('w0', {t})", 'register': "REG.register('w0', {t})", 'unregister': "REG.unregister('w0')"}
+
+
+def registry_drivers(ops):
+  out = {}
+  for i, op in enumerate(ops):
+    out[f't{i}_{op}'] = f"def t{i}_{op}():\n  " + REG_OPS[op].format(t=f'T{i}') + "\n"
+  return out
+
+
+def build_registry_system(ops, init):
+  """ops: e.g. ('refresh', 'unregister'); init: 'absent' | 'dead' | 'alive' (symbolic heartbeat 1..9)."""
+  sysm = B.System()
+  src = F.load_sources([os.path.join(common.REPO, COURIER_UTILS)], {'WorkerRegistry'}, set())
+  if init == 'alive':
+    sysm.params['INIT'] = (1, 9)
+  initv = {'absent': F.OPT_ABSENT, 'dead': F.OPT_NONE, 'alive': 'INIT'}[init]
+  sysm.objects['REG'] = F.ObjSpec('REG', 'WorkerRegistry', {'data': ('int', initv)}, prims={'_lock': ('lock', 'REG.L'), 'data': ('dict1', 'data', REG_KEY)})
+  sysm.locks['REG.L'] = 'lock'
+  globs = {}
+  for i, op in enumerate(ops):
+    if op != 'unregister':
+      sysm.params[f'T{i}'] = (1, 9)
+      globs[f'T{i}'] = F.Val('int', e=('param', f'T{i}'))
+  comp = F.Compiler(src, sysm.objects, {}, {}, globs)
+  for name, d in registry_drivers(ops).items():
+    sysm.threads.append(comp.compile_thread(name, d))
+  sysm.meta = {'ops': tuple(ops), 'init': init, 'encoded_lines': sorted(comp.encoded_lines), 'dropped_lines': sorted(comp.dropped_lines), 'nprod': 0, 'items': (), 'ncons': 0}
+  return sysm
+
+
+def registry_allowed(ops, init, times):
+  """Final table entries the sequential semantics allows: every order of the atomic operations (python reference)."""
+  import itertools
+  res = set()
+  for perm in itertools.permutations(range(len(ops))):
+    v = init
+    for i in perm:
+      if ops[i] == 'register':
+        v = times[i]
+      elif ops[i] == 'unregister':
+        v = None
+      elif v is not None:            # refresh never revives a dead worker and never moves the heartbeat backwards
+        v = max(0 if v == 'absent' else v, times[i])
+    res.add(v)
+  return res
+
+
+def c20_registry_ok(enc, sysm, st):
+  """The final entry equals the result of SOME sequential order of the (atomic) operations; nobody died with a TypeError."""
+  import z3, itertools
+  ops, init = sysm.meta['ops'], sysm.meta['init']
+  fin = st[('g', 'REG', 'data')]
+  T = {i: enc.P[f'T{i}'] for i, op in enumerate(ops) if op != 'unregister'}
+  ABSENT = ('absent',)
+  v0 = {'absent': ABSENT, 'dead': None, 'alive': enc.P.get('INIT')}[init]
+  def mx(a, b):
+    return z3.If(z3.UGE(a, b), a, b)
+  alts = []
+  for perm in itertools.permutations(range(len(ops))):
+    v = v0
+    for i in perm:
+      if ops[i] == 'register':
+        v = T[i]
+      elif ops[i] == 'unregister':
+        v = None
+      elif v is not None:
+        v = T[i] if v is ABSENT else mx(v, T[i])
+    alts.append(fin == (B.BV(F.OPT_NONE) if v is None else B.BV(F.OPT_ABSENT) if v is ABSENT else v))
+  conj = [z3.Or(*alts)]
+  for tid in range(len(sysm.threads)):
+    conj.append(st[('died', tid)] == 0)
+  return z3.And(*conj)
+
+
+def c20_registry_ok_py(meta, holder, params):
+  reg = holder.get('REG')
+  fin = reg.data.get(REG_KEY, 'absent')
+  times = {i: params.get(f'T{i}') for i in range(len(meta['ops']))}
+  init = {'absent': 'absent', 'dead': None, 'alive': params.get('INIT')}[meta['init']]
+  allowed = registry_allowed(meta['ops'], init, times)
+  if holder.get('errors'):
+    return False, f"a registry operation raised: {holder['errors']}"
+  if fin not in allowed:
+    return False, f'final liveness entry {fin!r} is not the result of any order of {meta["ops"]} with times {times} from {init!r} (allowed: {sorted(map(repr, allowed))})'
+  return True, ''
+
+
+def registry_threads(sysm, enc, trace, drivers):
+  from . import bmc_replay as R
+  holder = {'errors': []}
+  P = trace['params']
+
+  def make(sched):
+    import sys, types
+    try:
+      import courier as cmod
+    except ImportError:
+      cmod = types.ModuleType('courier')
+      sys.modules['courier'] = cmod
+    from ml_metrics._src.utils import courier_utils
+    reg = courier_utils.WorkerRegistry()
+    reg._lock = R.CtlLock(sched, 'REG.L')
+    if sysm.meta['init'] == 'dead':
+      reg.data[REG_KEY] = None
+    elif sysm.meta['init'] == 'alive':
+      reg.data[REG_KEY] = P['INIT']
+    holder['REG'] = reg
+    env = {'REG': reg, **{k: v for k, v in P.items() if k.startswith('T')}}
+    fns = {}
+    for name, srcode in drivers.items():
+      ns_ = dict(env)
+      exec(srcode, ns_)
+      f = ns_[name]
+      def run(f=f, name=name):
+        try:
+          f()
+        except Exception as e:      # a TypeError from max(None, t) etc. is part of the observable outcome
+          holder['errors'].append((name, repr(e)))
+      fns[name] = run
+    return fns
+  return make, {}, holder
